@@ -15,6 +15,17 @@ CLAIMED = {
             'cut write (unbuffered SimFile); ground truth for "written records" is sedfitter\'s reader on the complete file.',
             'deterministic simulation: seeded histories x enumerated crash offsets, live crash/ENOSPC fault injection via injected open(), observer reads at seam events',
             'DESIGN.md section 5 (C19)'),
+    'C10': ('exploration',
+            'Seeded simulated runs of the whole writer path: data stream (path or simulated reader, eligible/ineligible lines, short '
+            'terminator lines), output stream under crash/ENOSPC at chosen byte offsets followed by a restart through the delete prompt, '
+            'pre-existing outputs, non-monotone clocks; every record of the final file is compared bit-exactly with an object-interface '
+            'twin, the metadata with the run, sedfitter\'s reader with the raw pickle stream; then histories of up to 3 post-processing '
+            'calls through one channel (path / object / list) are compared with fresh per-call executions on the path, with the caller\'s '
+            'objects and the input file required unchanged. Evidence by seeded search, not proof.',
+            'Trusts the object interface (Fitter.fit + keep) as the reference for record contents; bit-exactness is only demanded between '
+            'two executions of the same code path in one process; zero-byte outputs are outside the quantifier.',
+            'deterministic simulation: seeded scenarios over data/output streams, clock, prompt, crash/ENOSPC + restart, and consumer histories on shared result objects; differential + twin oracles',
+            'DESIGN.md section 5 (C10)'),
 }
 
 NOT_APPLICABLE = {
